@@ -4,7 +4,12 @@ TARGETS = {
 }
 PROP = {
     "subchecks": [
+        # ASAN_OPTIONS repeats the driver's defaults except malloc_context_size (12 -> 4) and the quarantine
+        # (256 -> 64 MB): librapidcheck is built without frame pointers, so ASan's fast unwinder records garbage
+        # frames above the harness and the never-freed StackDepot grows by ~8 KB per case (1.2 GB after 60 000
+        # cases; the first thorough run lost 3 workers to the OOM killer).  With 4 frames it stays < 200 MB.
         {"target": "c16_hsm_rc", "sub": "hsm",
+         "env": {"ASAN_OPTIONS": "detect_leaks=1:detect_stack_use_after_return=0:allocator_may_return_null=1:handle_abort=0:symbolize=1:malloc_context_size=4:quarantine_size_mb=64"},
          "quick": {"cases": 25000, "max_size": 60, "workers": 8},
          "thorough": {"cases": 600000, "max_size": 80, "workers": 12}},
         {"target": "c16_hsm_fuzz", "sub": "hsm",
